@@ -73,7 +73,8 @@ def mutations(ty, v):
                 out.append((("ftag", pos, "wrong"), "tag"))
                 # without its tag a value is an error; a nil field's `null` is not: a tagged field whose type has a nil value
                 # accepts the bare `null` an encoder that does not know the field leaves there (the K5 repair)
-                if not dg.absent(f, x):
+                # (a present value whose own encoding is `null` — Some(newtype(nil)), the Some(x)=null exclusion — is that same bare null)
+                if not dg.absent(f, x) and dg.enc_field_value(f, x, None) != b"\xf6":
                     out.append((("ftag", pos, "missing"), None))
         if not dg.is_optional(f):
             rest = [g.idx for g, _ in present if g is not f]
